@@ -471,6 +471,8 @@ pub trait Subj: Any {
     /// copies: nothing may panic; returns whether every copy is indistinguishable from self
     fn clone_eq(&self) -> Result<bool, String>;
     fn as_any(&self) -> &dyn Any;
+    /// `self == other` when `other` holds the same type (None otherwise); Err on panic
+    fn eq_dyn(&self, other: &dyn Subj) -> Option<Result<bool, String>>;
 }
 
 pub struct Holder<T>(pub T);
@@ -509,6 +511,10 @@ where
     }
     fn as_any(&self) -> &dyn Any {
         &self.0
+    }
+    fn eq_dyn(&self, other: &dyn Subj) -> Option<Result<bool, String>> {
+        let o = other.as_any().downcast_ref::<T>()?;
+        Some(catch(|| self.0 == *o))
     }
 }
 
